@@ -15,7 +15,8 @@ Request = the `run` request of harness/runlib.py (task table, oracle, flags, `tr
 Answer: {"monitor": {"C11_lazy", "C11_setup_before", "C11_td_exact", "C11_td_after"},
          "model_td": the teardown log of the model for the observed start order (same item format; process runner:
                      worker by worker), "model_crash": the model's main process dies (failing teardown in a worker
-                     process, pinned variant only), "justified": the tasks the laziness monitor accepts as needed}
+                     process, pinned variant only), "justified": the tasks the laziness monitor accepts as needed,
+         "hyp": {"bounded": the hypothesis `Bounded inp n` of `C11_lazy_monitor`}}
 
 `model_td` is `teardownRun` / `workerTeardown` over the start order — by `C11_teardown_shared` /
 `C11_teardown_process_exact` (Props/C11.lean) this IS the log of every complete run of the extended model that has these start events; that such a run of the model
@@ -68,6 +69,7 @@ def handle (j : Json) : Json :=
         ("C11_setup_before", Json.bool (monSetupBefore inp tr)),
         ("C11_td_exact", Json.bool exact),
         ("C11_td_after", Json.bool (monTdAfter inp nW mixed))]),
+      ("hyp", Json.mkObj [("bounded", Json.bool (boundedB inp n))]),
       ("model_td", mkArr (modelTd.map tdJson)),
       ("model_crash", Json.bool modelCrash),
       ("justified", ofNats (lazyIter inp n tr (n + 1) (addNew [] inp.sel)))]
